@@ -217,6 +217,8 @@ pub fn sd_jwt_vc_accessors(vc: &SdJwtVc) {
   }
   st("SdJwtVc::resolver-driven");
   crate::census::sd_jwt_vc_with_resolvers(vc);
+  st("SdJwtClaims::from(SdJwtVcClaims)");
+  bb(sd_jwt_payload_rework::SdJwtClaims::from(vc.claims().clone()).len());
   st("SdJwt::from(SdJwtVc)");
   bb(identity_credential::sd_jwt_v2::SdJwt::from(vc.clone()).to_string().len());
 }
